@@ -505,6 +505,8 @@ def reqExample : Req :=
     ims := none, ius := none, range := none, content := [1, 2, 3] }
 
 example : (respond reqExample).status = 304 := by decide
+example : dictatedFile { reqExample with inm := [] } = false := by decide
+example : dictatedGen { reqExample with kind := .gen, callSince := true, inm := [] } = false := by decide
 example : dictatedFile reqExample = true := by decide
 example : (respond { reqExample with getHead := false }).status = 412 := by decide
 example : (respond { reqExample with inm := ["W/\"t\"".toList] }).status = 200 := by decide
